@@ -275,7 +275,7 @@ def run(ck: Checker):
     ck.check(len(adds) == 1 and not [x for x in raw if x[0] is enc], 'C17.KEY', enc, dg, 'every decoded gate enters the circuit through the checked add_gate/emplace_gate (gate map and users index stay exact)',
              f'{len(adds)} checked insertions, {len([x for x in raw if x[0] is enc])} raw writes to circuit internals in the decoder', construct='_decode_gate inserts through the circuit API')
     ck.floor('C17.KEY', 5)
-    ck.assume('NOT DECIDED: that every entry of the shipped aig/xaig databases decodes to its key within its basis (a statement about data files, not about code shape)')
+    ck.assume('NOT DECIDED: the entries of the shipped aig/xaig databases outside the sample decoded by C17.SHIP (a statement about data files, not about code shape)')
     ck.assume('the store returns, for a key, a circuit computing that normalised table (content of the data files)')
 
 
